@@ -4,11 +4,17 @@ import XModel.Argmin
 import XModel.OptNum
 import XModel.OptMaxStep
 import XModel.OptBest3
+import XModel.OptPerCall
 /-! Line-protocol suite `opt`: trace acceptance for `Optimize.solve / step / reload`.
     One line = one API call with the state the implementation was in before the call, the recorded
     user-function table and the solver's choice of evaluation points (the numerics are an oracle);
     the model of `XModel/Opt.lean`, instantiated with IEEE doubles, must end in the implementation's
-    state: knobs, flags, appended log rows, exception kind. -/
+    state: knobs, flags, appended log rows, exception kind.
+
+    A `step` call may carry `call.args`: the six per-call arguments `enable_target / enable_vary / enable_vary_name /
+    disable_target / disable_vary / disable_vary_name`, each already resolved by the harness to the list of positions it
+    switches.  `pre` is then the state BEFORE those flags are applied; the driver runs `Opt.optStepWith` (flags, the call
+    proper, the undo — skipped by an exception) and the flags it outputs are the final ones. -/
 namespace DOpt
 open Lean Opt
 
@@ -101,6 +107,19 @@ def iterOfJson (j : Json) : Option (Iter Float) := do
   let last ← (field j "last").bind vecOfJson
   let pe ← fieldBool j "pe"
   pure ⟨resync, early, jac.map vecFn, trials.map vecFn, vecFn last, pe⟩
+
+def natList (j : Json) (k : String) : List Nat :=
+  match fieldArr j k with
+  | some l => l.filterMap (fun (v : Json) => v.getNat?.toOption)
+  | none => []
+
+/-- the per-call arguments of `step`, as resolved positions (absent or `null` = not given = `[]`) -/
+def stepArgsOfJson (call : Json) : StepArgs :=
+  match field call "args" with
+  | some a => { enableTarget := natList a "enable_target", enableVary := natList a "enable_vary",
+                enableVaryName := natList a "enable_vary_name", disableTarget := natList a "disable_target",
+                disableVary := natList a "disable_vary", disableVaryName := natList a "disable_vary_name" }
+  | none => {}
 
 def errName : Err → String
   | .limit => "limit" | .user => "user" | .noTol => "noTol" | .penalty => "penalty"
@@ -200,16 +219,17 @@ def step (j : Json) : Json :=
       let tb : Option Nat := match (field call "pens").bind vecOfJson, (field call "log_start").bind (fun v => v.getNat?.toOption) with
         | some pens, some start => Opt.takeBestArg pens start    -- the rule `C15_take_best_*_branch` are about
         | _, _ => none
+      let args : StepArgs := if kind == "step" then stepArgsOfJson call else {}
       let res : Except Err Unit × St Float :=
         if kind == "solve" then solve c its tb s0
-        else if kind == "step" then optStep c its tb s0
+        else if kind == "step" then optStepWith args c its tb s0    -- `= optStep c its tb s0` without arguments (`optStepWith_noArgs`)
         else if kind == "reload" then reload c ((field call "i").bind (fun v => v.getNat?.toOption) |>.getD 0) s0
         else if kind == "tag" then addPoint c s0
         else (.ok (), s0)
       let nums := ((fieldArr call "its").getD []).map stepNumOfJson
       let numRes : Bool × Bool × Nat :=
         if kind == "solve" || kind == "step" then
-          let sStart : St Float := if kind == "solve" then { s0 with solverX := extractX c s0 } else s0
+          let sStart : St Float := if kind == "solve" then { s0 with solverX := extractX c s0 } else argState args s0
           match addPoint c sStart with
           | (.ok _, sA) => checkLoop p c (its.zip nums) sA
           | _ => (true, true, 0)
@@ -221,6 +241,8 @@ def step (j : Json) : Json :=
         ("last_within", .bool s1.lastWithin), ("take_best", match tb with | some i => .num (JsonNumber.fromNat i) | none => .null),
         -- hypothesis of `C10_disabled_knob_never_changed`: the reloaded row was logged during this call
         ("tb_in_call", .bool (match tb with | some i => decide (log.length ≤ i) | none => true)),
+        -- the flags in force during the call (after the per-call arguments, before the undo)
+        ("vact_call", .str (flagsStr p.n (argState args s0).vAct)), ("tact_call", .str (flagsStr p.nt (argState args s0).tAct)),
         -- the numerics of every executed solver step replayed on doubles (`OptNum.clip`, `OptNum.trialPoint`)
         ("clip_ok", .bool numRes.1), ("trial_ok", .bool numRes.2.1), ("num_steps", .num (JsonNumber.fromNat numRes.2.2)),
         ("rows", .arr (newRows.map (fun rw => Json.mkObj [("knobs", vecJson p.n rw.knobs),
